@@ -177,6 +177,21 @@ def _prove_guards(c, prefix, n_div_min=1):
         c.prove(f"{prefix}guard:sqrt_argument_positive[{k}]", args[0] > 0)
 
 
+def _has_uf(term, only=None):
+    """does the z3 term contain an application of an uninterpreted function (of `only`, if given)?"""
+    seen, stack = set(), [term]
+    while stack:
+        t = stack.pop()
+        if t.get_id() in seen:
+            continue
+        seen.add(t.get_id())
+        if z3.is_app(t):
+            if t.decl().kind() == z3.Z3_OP_UNINTERPRETED and t.num_args() > 0 and (only is None or t.decl().eq(only)):
+                return True
+            stack.extend(t.children())
+    return False
+
+
 def _nra_lemma(c, name, nvars, build, inst):
     """Prove  forall reals v1..vn: /\\ hyps(v) => concl(v)  in a FRESH solver (pure nonlinear real
     arithmetic, no context), record the outcome as an obligation and, when valid, assume the instance
@@ -349,11 +364,17 @@ def _smoothed_body(cls, vertical):
             if all(d.get_id() != e.get_id() for e in divs):
                 divs.append(d)
         sqrt_apps = list(ctx().uf_apps.get("sqrt", {}).values())
-        dx_t = next((SymNum(d) for d in divs if ctx().implied(d == to_z3_real(s_um.re))), None)
-        R_t = next((SymNum(d) for d in divs if ctx().implied(d == to_z3_real((rad * s_um).re))), None)
+        # candidates are pre-filtered structurally so that every solver query asked here is a small one
+        plain_divs = [d for d in divs if not _has_uf(d)]
+        dx_t = next((SymNum(d) for d in plain_divs if ctx().implied(d == to_z3_real(s_um.re))), None)
+        R_t = next((SymNum(d) for d in plain_divs if ctx().implied(d == to_z3_real((rad * s_um).re))), None)
         if dx_t is not None and R_t is not None and len(sqrt_apps) == 1:
             sa, sq = SymNum(sqrt_apps[0][0][0]), SymNum(sqrt_apps[0][1])
             cz = z3.RealVal(str(rad))
+            # every in-context step below is made linear/propositional for the solver: the non-linear
+            # facts are proved once (small queries) and then available as named equalities
+            cut("smoothed/lemma:dx==voxel_size_in_um", v_eq(dx_t, s_um))
+            cut("smoothed/lemma:R_smoothing==0.55*dx", v_eq(R_t, rad * s_um))
             # h: the squared gradient norm as the code forms it, (g1/dx)^2 + (g2/dy)^2, from the code's own dx term
             q1, q2 = g1 / dx_t, g2 / dx_t
             h = q1 * q1 + q2 * q2
@@ -366,12 +387,21 @@ def _smoothed_body(cls, vertical):
             )
             cut("smoothed/lemma:sqrt_argument_is_squared_gradient_norm", v_eq(sa, h), [gg > 0])
             cut("smoothed/lemma:sqrt^2==argument,sqrt>0", A._vand(v_eq(sq * sq, sa), sq > 0), [gg > 0])
-            ne_t = next((SymNum(d) for d in divs if ctx().implied(z3.Implies(z3.And(*(hyps + [_z(gg > 0)])), d == sq.re))), None)
+            with_sqrt = [d for d in divs if _has_uf(d, only=sq.re.decl())]
+            ne_t = SymNum(with_sqrt[0]) if len(with_sqrt) == 1 else None
             _nra_lemma(c, "smoothed/lemma(generic):(q*s)^2==g", 5, lambda q, a, hh, s, g: ([q * q == a, a == hh, hh * s * s == g], (q * s) * (q * s) == g), [sq, sa, h, s_um, gg])
             _nra_lemma(c, "smoothed/lemma(generic):|E|>=c*s*q", 4, lambda q, s, g, e: ([q > 0, s > 0, (q * s) * (q * s) == g, e * e >= cz * cz * g], z3.Or(e >= cz * s * q, -e >= cz * s * q)), [sq, s_um, gg, E])
-            _nra_lemma(c, "smoothed/lemma(generic):|E/q|>=c*s", 3, lambda q, s, e: ([q > 0, s > 0, z3.Or(e >= cz * s * q, -e >= cz * s * q)], z3.Or(e / q >= cz * s, -(e / q) >= cz * s)), [sq, s_um, E])
             if ne_t is not None:
-                cut("smoothed/lemma:distance_to_level_set>=R_smoothing", abs(E / ne_t) >= R_t, far)
+                cut("smoothed/lemma:gradient_norm_divisor==sqrt", v_eq(ne_t, sq), [gg > 0])
+                U = E / ne_t
+                _nra_lemma(
+                    c,
+                    "smoothed/lemma(generic):|E/n|>=r",
+                    6,
+                    lambda q, s, e, n, u, r_: ([q > 0, s > 0, n == q, u == e / n, r_ == cz * s, z3.Or(e >= cz * s * q, -e >= cz * s * q)], z3.Or(u >= r_, -u >= r_)),
+                    [sq, s_um, E, ne_t, U, R_t],
+                )
+                cut("smoothed/lemma:distance_to_level_set>=R_smoothing", abs(U) >= R_t, far)
         cut("smoothed/post:equals_plain[level_set_outside_smoothing_radius]", goal, far)
         c.prove("smoothed/post:equals_plain_projection_where_no_interface", goal, extra_hyps=hyps + [_z(no_interface)])
         _prove_guards(c, "smoothed/", n_div_min=3)
